@@ -153,6 +153,47 @@ pub fn c15(opts: &Opts, out: &mut Out) {
         v.push([0u8; 32]);
         v
     };
+    // the group order plus and minus every fourth power of two, and 2^252 plus the same: unreduced values that differ
+    // from l in one limb only, and canonical values just below
+    let mut specials = specials;
+    {
+        let add_pow = |base: &[u8; 32], b: usize, neg: bool| -> Option<[u8; 32]> {
+            let mut x = *base;
+            let (mut byte, bit) = (b / 8, b % 8);
+            let mut carry = 1u16 << bit;
+            while byte < 32 && carry != 0 {
+                if !neg {
+                    let v = x[byte] as u16 + carry;
+                    x[byte] = (v & 0xff) as u8;
+                    carry = v >> 8;
+                } else {
+                    let v = x[byte] as i32 - carry as i32;
+                    if v < 0 {
+                        x[byte] = (v + 256) as u8;
+                        carry = 1;
+                    } else {
+                        x[byte] = v as u8;
+                        carry = 0;
+                    }
+                }
+                byte += 1;
+            }
+            if carry != 0 { None } else { Some(x) }
+        };
+        let mut two252 = [0u8; 32];
+        two252[31] = 0x10;
+        for b in (0..252usize).step_by(4) {
+            if let Some(x) = add_pow(&ELL, b, false) {
+                specials.push(x);
+            }
+            if let Some(x) = add_pow(&ELL, b, true) {
+                specials.push(x);
+            }
+            if let Some(x) = add_pow(&two252, b, false) {
+                specials.push(x);
+            }
+        }
+    }
     for d in 1u8..=6 {
         let k = 1 + (d as usize % 3);
         let base = build(d, k, &mut rng);
